@@ -28,7 +28,7 @@ COMPONENTS = {"real": ["reb_simulation_copy, reb_simulation_diff, reb_binary_dif
 ASSUMPTIONS = ["callbacks are re-attached to the copy before equality is asserted (the function-pointer flag is persisted)",
                "a mutation counts only if it is sticky (the serialiser recomputes some caches); array-sizing fields are only mutated downwards"]
 PROBES = ["with_variational", "with_megno", "unsynchronized_state", "with_tree", "with_display_settings", "mutations_sticky", "mutations_not_sticky",
-          "walltime_mutations_ignored", "pointer_mutations_ignored", "freed_copy_then_stepped_source", "tree_of_copy_checked", "live_arrays_compared", "copy_on_differently_filled_heap", "compact_system_merged_before_copy", "source_has_automatic_archive"]
+          "walltime_mutations_ignored", "pointer_mutations_ignored", "freed_copy_then_stepped_source", "tree_of_copy_checked", "live_arrays_compared", "copy_on_differently_filled_heap", "compact_system_merged_before_copy", "source_has_automatic_archive", "copy_outlived_its_origin"]
 
 # dtype codes of reb_binary_field_descriptor
 DT = dict(DOUBLE=0, INT=1, UINT=2, UINT32=3, INT64=4, UINT64=5, VEC3D=7, PARTICLE=8, POINTER=9, POINTER_ALIGNED=10, DP7=11, OTHER=12, END=13, PARTICLE4=15, POINTER_FIXED=16)
@@ -271,6 +271,38 @@ def execute(case, ctx):
         viol("heap", "heap corruption after freeing the copy", a)
         return result()
     probe("freed_copy_then_stepped_source")
+    # ---- a copy of a copy stays usable after the intermediate object (the thing it was copied from) has been freed and its memory poisoned ----
+    ctx.op(106)
+    if not (uses_tree and cfg.get("collision", "none") != "none"):
+        try:
+            with rb.quiet():
+                E = A.copy()
+                simgen.attach_callbacks(rebound, rb, E, cfg)
+                G = E.copy()
+                simgen.attach_callbacks(rebound, rb, G, cfg)
+                F = A.copy()
+                simgen.attach_callbacks(rebound, rb, F, cfg)
+                del E
+                gc.collect()
+                G.steps(3)
+                F.steps(3)
+            tg, tf = rb.T(G), rb.T(F)
+            if uses_tree:
+                srt = lambda raw: sorted(raw[i:i + rb.PART.size] for i in range(0, len(raw), rb.PART.size))
+                same = tg[0] == tf[0] and tg[1] == tf[1] and srt(tg[2]) == srt(tf[2])
+            else:
+                same = tg == tf
+            if not same:
+                viol("independence", "a copy whose origin has been freed does not evolve like a copy of the live source", "copy of a copy, intermediate freed, 3 steps", key="independence:origin-freed")
+                return result()
+            a = rb.heap_audit()
+            if a:
+                viol("heap", "heap corruption after freeing the origin of a copy", a)
+                return result()
+            probe("copy_outlived_its_origin")
+            del G, F
+        except (rebound.Escape, rebound.NoParticles, rebound.Encounter, rebound.Collision, rebound.GenericError, RuntimeError):
+            pass
     # ---- 4. one-bit mutation sweep on D against A -------------------------------------------------
     ctx.op(105)
     if uses_tree:
